@@ -30,7 +30,10 @@ Inductive op1 :=
 | Iter                              (* list(c) *)
 | Items                             (* list(c.items()) *)
 | EqDict (d : list (K * V))         (* c == d   for a plain dict d (keys of d distinct) *)
-| NeDict (d : list (K * V)).        (* c != d *)
+| NeDict (d : list (K * V))         (* c != d *)
+| UpdateSelf (f : list (K * V))     (* c.update(c, **F) *)
+| EqOther                           (* c == x   for x that is not a mapping (None, 5, "a", a list, a set) *)
+| NeOther.                          (* c != x *)
 
 (* operations on the heap of caches of one history; cache 0 is the original *)
 Inductive hop :=
